@@ -99,20 +99,21 @@ def _job(job):
     if r["ok"]:
         # ---- construction paths per residue
         def observed(e, snap):
+            # the construction path, from the call stack and the recorded superposition (not from one fixed frame position,
+            # so that a helper extracted between the loop and create_atom does not change the reading)
             frs = e.get("frs") or []
-            caller = frs[1] if len(frs) > 1 else ""
             fit = e.get("fit")
             acts = list((fit or {}).get("acts", []))
-            if caller.endswith("rebuild_tetrahedral"):
+            if any(f.endswith("rebuild_tetrahedral") for f in frs):
                 path = "tet-two-point" if (fit and fit["n"] == 2) else "tet-rotate"
                 refs = [_name_of(snap, c) for c in fit["def"][:2]] if path == "tet-two-point" else []
                 acts = acts[:2] if path == "tet-two-point" else []
-            elif caller.endswith("add_hydrogens") or caller.endswith("repair_heavy"):
+            elif fit and fit["n"] == 3:
                 path = "fit3"
-                refs = [_name_of(snap, c) for c in (fit["def"][:3] if fit else [])]
+                refs = [_name_of(snap, c) for c in fit["def"][:3]]
                 acts = acts[:3]
             else:
-                path, refs, acts = "other:" + caller, [], []
+                path, refs, acts = "other:" + (frs[1] if len(frs) > 1 else ""), [], []
             return {"name": e["name"], "path": path, "refs": refs, "acts": acts}
 
         def case_of(snap, mode):
